@@ -9,6 +9,11 @@ pub mod c30;
 pub mod c31;
 pub mod c32;
 pub mod c34;
+pub mod c35;
+pub mod c36;
+pub mod c38;
+pub mod c39;
+pub mod c40;
 pub mod packet;
 pub mod server;
 pub mod source;
@@ -41,5 +46,10 @@ pub fn registry() -> Vec<Entry> {
         entry::<c31::C31>(false),
         entry::<c32::C32>(false),
         entry::<c34::C34>(false),
+        entry::<c35::C35>(false),
+        entry::<c36::C36>(false),
+        entry::<c38::C38>(false),
+        entry::<c39::C39>(true),
+        entry::<c40::C40>(false),
     ]
 }
